@@ -47,6 +47,7 @@ type vsasl struct {
 	challenge [][]byte // challenge per step
 	fail      bool     // final verdict
 	failAt    int      // step at which to fail early (-1: never)
+	finalData []byte   // "additional data with success": returned together with done == true
 }
 
 func (m *vsasl) Next(response []byte) ([]byte, bool, error) {
@@ -62,7 +63,7 @@ func (m *vsasl) Next(response []byte) ([]byte, bool, error) {
 	if m.fail {
 		return nil, false, ErrAuthFailed
 	}
-	return nil, true, nil
+	return m.finalData, true, nil
 }
 
 // verifC09gate: is AUTH reachable? TLS state, AllowInsecureAuth, backend kind
@@ -511,4 +512,46 @@ func verif_C09_failed_starttls_stub() {
 		verifReach("C09.failed-starttls-allowed")
 		verifAssert(ar.code == 235, "C09.insecure-auth-allowed-still-works")
 	}
+}
+
+// verif_C09_final_data: a mechanism that returns additional data together with
+// success (SCRAM, DIGEST-MD5). Whether the server passes that data on in a last
+// 334 or not: a 334 that the client answers with "*" or with something that is
+// not base64 never ends in 235, and the connection is not authenticated. What
+// the client sends after a 235 is a command.
+func verif_C09_final_data() {
+	m := &vsasl{failAt: -1, steps: nondetInt(0, 1), challenge: [][]byte{[]byte("c")}, finalData: []byte("v=ok")}
+	be := &vbackend{authSession: true, mechs: []string{"XVERIF"}}
+	be.saslFn = func(_ *vsession, mech string) (sasl.Server, error) { return m, nil }
+	s, lg := verifServer(be)
+	s.AllowInsecureAuth = true
+	ack := []string{"*", "!!!", "", "AA=="}[verifChoice(4)]
+	in := "EHLO c\r\nAUTH XVERIF =\r\n"
+	for i := 0; i < m.steps; i++ {
+		in += "AA==\r\n"
+	}
+	in += ack + "\r\nNOOP\r\n"
+	vc, conn, _ := verifServe(s, []byte(in), io.EOF)
+	reps, wf := verifParseReplies(vc.out)
+	verifObserve("c09fd", m.steps, ack, wf, len(reps), conn.didAuth)
+	verifAssert(wf && lg.lines == 0, "C09.final-data-replies")
+	if !wf {
+		return
+	}
+	n334, n235 := 0, 0
+	for _, r := range reps {
+		if r.code == 334 {
+			n334++
+		}
+		if r.code == 235 {
+			n235++
+		}
+	}
+	verifAssert(n235 <= 1 && (n235 == 1) == conn.didAuth, "C09.final-data-235-iff-authenticated")
+	if n334 > m.steps && (ack == "*" || ack == "!!!") {
+		// the server asked once more and the client cancelled or garbled its answer
+		verifAssert(n235 == 0 && !conn.didAuth, "C09.final-data-aborted-last-step-does-not-authenticate")
+	}
+	verifReach("C09.final-data-end")
+	verifAssert(reps[len(reps)-1].code == 250, "C09.final-data-command-mode-after")
 }
